@@ -22,14 +22,14 @@ theorem splitOn_joinWith {c : Nat} {xs : List Str} (hne : xs ≠ []) (hx : ∀ x
 
 theorem kvStr_ne_nil (kv : Str × Str) : kvStr kv ≠ [] := by simp [kvStr]
 
-theorem comma_notMem_kvStr {kv : Str × Str} (h1 : clean kv.1 = true) (h2 : clean kv.2 = true) :
+theorem comma_notMem_kvStr {kv : Str × Str} (h1 : clean kv.1 = true) (h2 : cleanV kv.2 = true) :
     cComma ∉ kvStr kv := by
   intro m
   simp only [kvStr, List.mem_append, List.mem_cons] at m
   rcases m with m | m | m
   · exact clean_comma h1 m
   · cases m
-  · exact clean_comma h2 m
+  · exact cleanV_comma h2 m
 
 theorem kvStr_inj {a b : Str × Str} (ha : clean a.1 = true) (hb : clean b.1 = true)
     (h : kvStr a = kvStr b) : a = b := by
@@ -50,7 +50,7 @@ theorem map_kvStr_inj {k1 k2 : Labels} (h1 : ∀ kv ∈ k1, clean kv.1 = true) (
       rw [kvStr_inj (h1 a (by simp)) (h2 b (by simp)) h.1,
         ih (fun kv m => h1 kv (by simp [m])) (fun kv m => h2 kv (by simp [m])) h.2]
 
-def CleanKey (k : Labels) : Prop := ∀ kv ∈ k, clean kv.1 = true ∧ clean kv.2 = true
+def CleanKey (k : Labels) : Prop := ∀ kv ∈ k, clean kv.1 = true ∧ cleanV kv.2 = true
 
 theorem render_inj {w : Bool} {name : Str} {k1 k2 : Labels} (h1 : CleanKey k1) (h2 : CleanKey k2)
     (h : render w name k1 = render w name k2) : k1 = k2 := by
@@ -104,8 +104,8 @@ theorem mem_of_lookup {f v : Str} {l : Labels} (h : l.lookup f = some v) : (f, v
       simp only [this] at h
       exact List.mem_cons_of_mem _ (ih h)
 
-theorem specKey_clean {name : Str} {labels : Labels} {fields : List Str} (w : Bool)
-    (h : Safe name labels fields) : CleanKey (specGroupKey fields w labels) := by
+theorem specKey_clean {name : Str} {labels : Labels} (fields : List Str) (w : Bool)
+    (h : Safe name labels) : CleanKey (specGroupKey fields w labels) := by
   intro kv m
   unfold specGroupKey at m
   cases w with
@@ -114,22 +114,22 @@ theorem specKey_clean {name : Str} {labels : Labels} {fields : List Str} (w : Bo
     exact h.hlabels kv (List.mem_filter.1 m).1
   | false =>
     simp only [Bool.false_eq_true, if_false, List.mem_filterMap] at m
-    obtain ⟨f, hf, hm⟩ := m
+    obtain ⟨f, _, hm⟩ := m
     cases hl : labels.lookup f with
     | none => simp [hl] at hm
     | some v =>
       simp [hl] at hm
       subst hm
-      exact ⟨h.hfields f hf, (h.hlabels _ (mem_of_lookup hl)).2⟩
+      exact h.hlabels _ (mem_of_lookup hl)
 
 /-- on safe label sets: same result-map key ⇔ same PromQL group -/
-theorem groupKey_eq_iff {name : Str} {l1 l2 : Labels} {fields : List Str} (w : Bool)
-    (h1 : Safe name l1 fields) (h2 : Safe name l2 fields) :
+theorem groupKey_eq_iff {name : Str} {l1 l2 : Labels} (fields : List Str) (w : Bool)
+    (h1 : Safe name l1) (h2 : Safe name l2) :
     extractGroupKey fields w (seriesIdOf name l1) = extractGroupKey fields w (seriesIdOf name l2)
       ↔ specGroupKey fields w l1 = specGroupKey fields w l2 := by
-  rw [extract_eq_spec w h1, extract_eq_spec w h2]
+  rw [extract_eq_spec fields w h1, extract_eq_spec fields w h2]
   constructor
-  · exact render_inj (specKey_clean w h1) (specKey_clean w h2)
+  · exact render_inj (specKey_clean fields w h1) (specKey_clean fields w h2)
   · intro e; rw [e]
 
 theorem seriesIdOf_inj {name : Str} {l1 l2 : Labels} (h1 : CleanKey l1) (h2 : CleanKey l2)
